@@ -24,6 +24,7 @@ from ..preprocessing.preprocessor import Preprocessor
 from ..single import EOF
 from ..utils.data_types import DataArray, DataList, DataObject
 from ..utils.sanity_checks import assert_not_complex
+from ..utils.xarray_utils import get_deterministic_sign_multiplier
 
 
 def _check_parameter_number(parameter_name: str, parameter, n_views: int):
@@ -427,6 +428,8 @@ class CCA(CCABaseModel):
         )
         eigvals = eigvals.isel(mode=idx_sorted_modes)
         eigvecs = eigvecs.isel(mode=idx_sorted_modes).real
+        # Flip signs of the eigenvectors to ensure deterministic output
+        eigvecs = eigvecs * get_deterministic_sign_multiplier(eigvecs, "feature")
         # Set coordiantes
         coords_mode = range(1, eigvals.mode.size + 1)
         coords_feature = C.coords[self.feature_name + "1"].values
